@@ -594,7 +594,8 @@ Proof.
   - injection Hof as <-. reflexivity.
   - injection Hof as <-. reflexivity.
   - discriminate Hof.
-  - cbn [of_type] in Hof. injection Hof as <-. unfold has_type. cbn [as_type].
+  - cbn [of_type] in Hof. destruct (of_type r) as [w|]; [|discriminate Hof].
+    cbn [option_map] in Hof. injection Hof as <-. unfold has_type. cbn [as_type].
     rewrite content_in_fun. rewrite (matches_refl_keys _ K). reflexivity.
   - cbn [of_type] in Hof. injection Hof as <-. unfold has_type. cbn [as_type].
     rewrite content_in_arr. rewrite (matches_refl_keys _ K). reflexivity.
